@@ -1,8 +1,15 @@
 """Per-property claims rendered into MANIFEST.json by tools/mkmanifest.py."""
 HOOK_COMMITS = []   # no source hooks needed so far
-FIX_COMMITS = ["5bfc12a fix: order_config word boundary (C08)", "943f14e fix: patch sort key (C08)", "1bcbbe1 fix: rewrite logic sends the new line ... (C01)", "28efb2a fix: file mode builds the patch from the complete diff (C16)", "c62ee59 fix: pool parent loop leaves only when the done queue is drained (C12)"]
+FIX_COMMITS = ["81e31d8 fix: implicit default block with its defaults (C17)", "5bfc12a fix: order_config word boundary (C08)", "943f14e fix: patch sort key (C08)", "1bcbbe1 fix: rewrite logic sends the new line ... (C01)", "28efb2a fix: file mode builds the patch from the complete diff (C16)", "c62ee59 fix: pool parent loop leaves only when the done queue is drained (C12)"]
 PENDING = {}
 CLAIMS = {
+    "C17": {
+        "technique": "TLA+ completion semantics (Implicit.tla) over annet's implicit rule trees taken as data (RuleLang tokens); synthesised trees replayed into implicit.config/merge_dicts and the shipped rulebooks; TLC trace judge",
+        "text": "For every hardware branch of the implicit rules (Huawei CE/NE/other, Arista, five Nexus variants incl. the tag-dependent one, Catalyst variants) trees synthesised from the rule rows (instances, the default "
+                "itself, competing values, unrelated rows) are completed by the real code; judged: explicit lines kept, completed tree equals the P-layer completion (default iff no matching line, default blocks with "
+                "their defaults), idempotence, and no patch command addresses a default present in both completions but written in neither input.",
+        "note": "Rule rows are lexed with the C07 lexer (trusted); no MC instance beyond the judge runs (the completion is a pure function judged on every real output).",
+    },
     "C10": {
         "technique": "TLA+ generator-program semantics (GenRun.tla: meaning = yielded paths; A-layer = TreeGenerator indentation + offside parse) + TLC MC of A=P over all programs in bounds; TLC-enumerated programs interpreted by real PartialGenerators through _old_new_per_device; TLC trace judge",
         "text": "TLC shows for every program <=4 (thorough 6) operations over yields, multi-line yields, block, block_if, multiblock that the indented lines parse to exactly the yielded paths; the same programs and "
